@@ -234,8 +234,12 @@ pub fn gen_frame(rng: &mut Rng, mode: SizeMode, mix: &FrameMix, stats: &mut GenS
             f
         };
         match ref_decode(mode, &f) {
-            RefRes::Pkt { .. } | RefRes::Err(_) => return f,
-            RefRes::Odd(_) | RefRes::Panic(_) => {
+            // "Odd" (the reference call answered a well-formed frame with something other than a
+            // packet or a decode error) stays in the workload: the model does not know what the
+            // packet is, but it does know that a frame of possible length is not a transport
+            // error, and the oracle holds the connection to that
+            RefRes::Pkt { .. } | RefRes::Err(_) | RefRes::Odd(_) => return f,
+            RefRes::Panic(_) => {
                 stats.rejected_by_reference += 1;
             },
         }
@@ -613,4 +617,33 @@ pub fn gen_flushes(rng: &mut Rng, n: usize, pending_pm: u64) -> Vec<FlushEv> {
         v.push(FlushEv::Ok);
     }
     v
+}
+
+/// A frame that decodes to a packet which the encoder refuses (write-side assertions such as
+/// HCP's h_mass <= 200): handing it to write() must fail cleanly and leave nothing behind.
+pub fn gen_unencodable_frame(rng: &mut Rng, mode: SizeMode) -> Option<Vec<u8>> {
+    let c = corpus(mode);
+    for attempt in 0..200 {
+        let want: u8 = *rng.pick(&[56u8, 65, 66, 67]);
+        let (t, sizes) = if attempt < 150 {
+            match c.ok_sizes.iter().find(|(t, _)| *t == want) {
+                Some(x) => x,
+                None => continue,
+            }
+        } else {
+            rng.pick(&c.ok_sizes)
+        };
+        let n = sizes[0];
+        let mut f: Vec<u8> = (0..n).map(|_| if rng.chance(1, 3) { rng.byte() } else { 0 }).collect();
+        f[0] = mode.size_byte(n);
+        f[1] = *t;
+        if let (RefRes::Pkt { keepalive: false, .. }, Some(p)) = ref_decode_packet(mode, &f) {
+            if let Err(e) = ref_encode(mode, &p) {
+                if !e.starts_with("panic") {
+                    return Some(f);
+                }
+            }
+        }
+    }
+    None
 }
